@@ -618,21 +618,208 @@ Definition window_binding (w0 w1 : list Wt) (eba ebb jts : nat) (is_func include
   ret (je, if is_func then je :: tl binding else binding).
 
 (* ------------------------------------------------------------------ statements, expressions,
-   patterns *)
+   patterns.  Open recursion: every piece takes the recursive calls as parameters
+   ([rec_e] = compile an expression, [rec_p] = a pattern, [rec_s] = a statement, [rec_b] = a
+   block); the knot is tied by the fixpoints on fuel at the end. *)
 
-Fixpoint lower_expr (fuel : nat) (P : program) (e : expr) (E : cenv) {struct fuel}
-  : M (list Wt * cenv) :=
-  match fuel with
-  | O => nofuel
-  | S f =>
-    let lower_list := fix go (es : list expr) (E : cenv) : M (list (list Wt) * cenv) :=
-      match es with
-      | [] => ret ([], E)
-      | e1 :: r =>
-          do* (w, E1) := lower_expr f P e1 E in
-          do* (ws, E2) := go r E1 in
-          ret (w :: ws, E2)
-      end in
+Section Rec.
+  Variable P : program.
+  Variable rec_e : expr -> cenv -> M (list Wt * cenv).
+  Variable rec_p : pattern -> list Wt -> cenv -> M (Wt * cenv).
+  Variable rec_s : stmt -> cenv -> M (list Wt * cenv).
+  Variable rec_b : list stmt -> cenv -> M (list Wt * cenv).
+
+  (* elements / fields / arguments, left to right *)
+  Fixpoint lower_list (es : list expr) (E : cenv) : M (list (list Wt) * cenv) :=
+    match es with
+    | [] => ret ([], E)
+    | e1 :: r =>
+        do* (w, E1) := rec_e e1 E in
+        do* (ws, E2) := lower_list r E1 in
+        ret (w :: ws, E2)
+    end.
+
+  (* struct literal: the fields in the order of the definition *)
+  Fixpoint lower_struct_fields (fields : list (N * expr)) (ds : list (N * ty)) (E : cenv)
+    : M (list (list Wt) * cenv) :=
+    match ds with
+    | [] => ret ([], E)
+    | (fname, _) :: r =>
+        match assocN fname (rev fields) with
+        | Some fe =>
+            do* (w, E1) := rec_e fe E in
+            do* (ws, E2) := lower_struct_fields fields r E1 in
+            ret (w :: ws, E2)
+        | None => crash
+        end
+    end.
+
+  (* the arms of a match; [sw]: scrutinee, [E0], [P0]: environment and panic state before the
+     match; accumulators: has_prev_match, muxed_ret_expr, muxed_panic, muxed_env *)
+  Fixpoint lower_arms (bits : nat) (sw : list Wt) (E0 : cenv) (P0 : Pst) (arms : list (pattern * expr))
+      (has_prev : Wt) (mret : list Wt) (mpanic : Pst) (menv : cenv)
+    : M (list Wt * Pst * cenv * Wt) :=
+    match arms with
+    | [] => ret (mret, mpanic, menv, has_prev)
+    | (pat, body) :: r =>
+        do* _ := m_replace P0 in
+        do* (is_match, E1) := rec_p pat sw (env_push E0) in
+        do* (rw, E2) := rec_e body E1 in
+        do* no_prev := m_not has_prev in
+        do* s := m_and no_prev is_match in
+        do* E3 := lift_res (env_pop E2) in
+        do* Pcur := m_peek in
+        do* mpanic' := m_mux_panic s Pcur mpanic in
+        do* menv' := mux_envs s E3 menv in
+        do* mret' := (if (length rw <? bits)%nat then crash
+                      else map2_M (fun x0 x1 => m_mux s x0 x1) (firstn bits rw) mret) in
+        do* has_prev' := m_or has_prev is_match in
+        lower_arms bits sw E0 P0 r has_prev' mret' mpanic' menv'
+    end.
+
+  (* call arguments: each compiled in a scope of its own *)
+  Fixpoint lower_args (ps : list (N * ty)) (args : list expr) (E : cenv)
+    : M (list (N * list Wt) * cenv) :=
+    match ps, args with
+    | (pn, _) :: pr, a :: ar =>
+        do* (w, Ea) := rec_e a (env_push E) in
+        do* Eb := lift_res (env_pop Ea) in
+        do* (bs, Ec) := lower_args pr ar Eb in
+        ret ((pn, w) :: bs, Ec)
+    | _, _ => ret ([], E)
+    end.
+
+  Definition bind_all (E : cenv) (bindings : list (N * list Wt)) : res cenv :=
+    fold_left (fun Er b => let* E' := Er in env_let E' (fst b) (snd b)) bindings (Ok E).
+
+  (* the windows of the join built-in: unmatched entries are zeroed *)
+  Fixpoint join_func_windows (eba ebb jts : nat) (has_assoc : bool) (ws : list (list Wt))
+    : M (list (list Wt)) :=
+    match ws with
+    | w0_ :: ((w1_ :: _) as r) =>
+        do* (je, binding) := window_binding w0_ w1_ eba ebb jts true has_assoc in
+        do* bd := (match binding with
+                   | [] => ret []
+                   | h :: tlb => do* tl' := mapM_M (fun g => m_mux je g wF) tlb in ret (h :: tl')
+                   end) in
+        do* rest := join_func_windows eba ebb jts has_assoc r in
+        ret (bd :: rest)
+    | _ => ret []
+    end.
+
+  Fixpoint lower_stmts (ss : list stmt) (E : cenv) : M cenv :=
+    match ss with
+    | [] => ret E
+    | s1 :: r => do* (_, E1) := rec_s s1 E in lower_stmts r E1
+    end.
+
+  (* the windows of a for-join loop: the body runs under the pattern binding, then environment
+     and panic state are merged by the join condition *)
+  Fixpoint join_loop_windows (pat : pattern) (body : list stmt) (eba ebb jts : nat)
+      (ws : list (list Wt)) (E : cenv) : M cenv :=
+    match ws with
+    | w0_ :: ((w1_ :: _) as r) =>
+        do* (je, binding) := window_binding w0_ w1_ eba ebb jts false true in
+        do* Pb := m_peek in
+        do* (_, Ej) := rec_p pat binding (env_push E) in
+        do* Ej := lower_stmts body Ej in
+        do* Ej := lift_res (env_pop Ej) in
+        do* Pj := m_replace Pb in
+        do* E' := mux_envs je Ej E in
+        do* Pm := m_mux_panic je Pj Pb in
+        do* _ := m_replace Pm in
+        join_loop_windows pat body eba ebb jts r E'
+    | _ => ret E
+    end.
+
+  (* for loop: one iteration per element; [n] bounds the number of iterations *)
+  Fixpoint for_iterations (pat : pattern) (body : list stmt) (eb : nat) (n : nat) (aw : list Wt)
+      (E : cenv) : M cenv :=
+    match n with
+    | O => ret E
+    | S k =>
+        match aw with
+        | [] => ret E
+        | _ =>
+            do* binding := lift_res (slice aw 0 eb) in
+            do* (_, Ea) := rec_p pat binding (env_push E) in
+            do* Eb := lower_stmts body Ea in
+            do* Ec := lift_res (env_pop Eb) in
+            for_iterations pat body eb k (skipn eb aw) Ec
+        end
+    end.
+
+  (* forward pass of an assignment through accessors: what is read, and what to write back *)
+  Definition acc_item := (list Wt * nat * nat * option (list Wt))%type.
+
+  Fixpoint assign_forward (m : meta) (accs : list accessor) (coll : list Wt) (E : cenv)
+      (acc : list acc_item) : M (list acc_item * cenv) :=
+    match accs with
+    | [] => ret (acc, E)
+    | AIdx arr_ty idx :: r =>
+        do* (eb, num_elems) := lift_res (array_size P arr_ty) in
+        do* (iw, E1) := rec_e idx E in
+        do* (coll', iw') := array_read coll iw eb num_elems m in
+        assign_forward m r coll' E1 ((coll, eb, O, Some iw') :: acc)
+    | ATup tup_ty i :: r =>
+        do* (wb, wi) := lift_res (tuple_offsets P tup_ty i) in
+        do* coll' := lift_res (slice coll wb wi) in
+        assign_forward m r coll' E ((coll, wb, wi, None) :: acc)
+    | AFld st_ty fld :: r =>
+        do* (wb, wi) := lift_res (struct_offsets P st_ty fld) in
+        do* coll' := lift_res (slice coll wb wi) in
+        assign_forward m r coll' E ((coll, wb, wi, None) :: acc)
+    end.
+
+  (* backward pass (accessed.into_iter().rev() = the accumulated list as it is) *)
+  Fixpoint assign_backward (m : meta) (acc : list acc_item) (value : list Wt) : M (list Wt) :=
+    match acc with
+    | [] => ret value
+    | (before, a, n, Some iw) :: r =>
+        do* v' := array_write before a iw value m in assign_backward m r v'
+    | (before, a, n, None) :: r =>
+        do* v' := lift_res (splice before a n value) in assign_backward m r v'
+    end.
+
+  (* sub-patterns over consecutive slices of the matched wires *)
+  Fixpoint fields_match (mw : list Wt) (ps : list (pattern * nat)) (w : nat) (is_match : Wt) (E : cenv)
+    : M (Wt * cenv) :=
+    match ps with
+    | [] => ret (is_match, E)
+    | (fp, fbits) :: r =>
+        do* sub := lift_res (slice mw w fbits) in
+        do* (fm, E1) := rec_p fp sub E in
+        do* is_match' := m_and is_match fm in
+        fields_match mw r (w + fbits)%nat is_match' E1
+    end.
+
+  (* struct pattern: every field of the definition advances the offset, named ones are matched *)
+  Fixpoint struct_match (mw : list Wt) (fields : list (N * pattern)) (ds : list (N * ty)) (w : nat)
+      (is_match : Wt) (E : cenv) : M (Wt * cenv) :=
+    match ds with
+    | [] => ret (is_match, E)
+    | (fname, fty) :: r =>
+        let fbits := szn P fty in
+        match assocN fname (rev fields) with
+        | Some fp =>
+            do* sub := lift_res (slice mw w fbits) in
+            do* (fm, E1) := rec_p fp sub E in
+            do* is_match' := m_and is_match fm in
+            struct_match mw fields r (w + fbits)%nat is_match' E1
+        | None => struct_match mw fields r (w + fbits)%nat is_match E
+        end
+    end.
+
+  (* fields.iter().zip(field_types) *)
+  Fixpoint zip_sizes (ps : list pattern) (fts : list ty) : list (pattern * nat) :=
+    match ps, fts with
+    | fp :: pr, ft :: fr => (fp, szn P ft) :: zip_sizes pr fr
+    | _, _ => []
+    end.
+
+  Definition one_wire (w : list Wt) : M Wt := match w with [x] => ret x | _ => crash end.
+
+  Definition lower_expr_body (e : expr) (E : cenv) : M (list Wt * cenv) :=
     match e with
     | Ex ei m t =>
       match ei with
@@ -643,26 +830,26 @@ Fixpoint lower_expr (fuel : nat) (P : program) (e : expr) (E : cenv) {struct fue
       | EId x => match env_get E x with Some v => ret (v, E) | None => crash end
       | EArrLit es => do* (ws, E1) := lower_list es E in ret (concat ws, E1)
       | EArrRep e1 n =>
-          do* (w, E1) := lower_expr f P e1 E in
+          do* (w, E1) := rec_e e1 E in
           do* w := m_extend w (e_ty e1) (szn P (e_ty e1)) in
           ret (concat (repeat w (N.to_nat n)), E1)
       | EIdx a i =>
           do* (_, num_elems) := lift_res (array_size P (e_ty a)) in
           let eb := szn P t in
-          do* (arr, E1) := lower_expr f P a E in
-          do* (idx, E2) := lower_expr f P i E1 in
+          do* (arr, E1) := rec_e a E in
+          do* (idx, E2) := rec_e i E1 in
           do* (r, _) := array_read arr idx eb num_elems m in
           ret (r, E2)
       | ETupLit es => do* (ws, E1) := lower_list es E in ret (concat ws, E1)
       | ETupAcc e1 i =>
           do* (wb, wi) := lift_res (tuple_offsets P (e_ty e1) i) in
-          do* (w, E1) := lower_expr f P e1 E in
+          do* (w, E1) := rec_e e1 E in
           do* r := lift_res (slice w wb wi) in
           ret (r, E1)
       | EFld e1 fld =>
           match e_ty e1 with
           | TStruct name =>
-              do* (w, E1) := lower_expr f P e1 E in
+              do* (w, E1) := rec_e e1 E in
               do* (wb, wi) := lift_res (struct_offsets P (TStruct name) fld) in
               do* r := lift_res (slice w wb wi) in
               ret (r, E1)
@@ -671,19 +858,7 @@ Fixpoint lower_expr (fuel : nat) (P : program) (e : expr) (E : cenv) {struct fue
       | EStructLit name fields =>
           match assocN name (p_structs P) with
           | Some def =>
-              do* (ws, E1) :=
-                (fix go (ds : list (N * ty)) (E : cenv) : M (list (list Wt) * cenv) :=
-                   match ds with
-                   | [] => ret ([], E)
-                   | (fname, _) :: r =>
-                       match assocN fname (rev fields) with
-                       | Some fe =>
-                           do* (w, E1) := lower_expr f P fe E in
-                           do* (ws, E2) := go r E1 in
-                           ret (w :: ws, E2)
-                       | None => crash
-                       end
-                   end) def E in
+              do* (ws, E1) := lower_struct_fields fields def E in
               ret (concat ws, E1)
           | None => crash
           end
@@ -702,32 +877,14 @@ Fixpoint lower_expr (fuel : nat) (P : program) (e : expr) (E : cenv) {struct fue
           end
       | EMatch scrut arms =>
           let bits := szn P t in
-          do* (sw, E0) := lower_expr f P scrut E in
+          do* (sw, E0) := rec_e scrut E in
           do* P0 := m_peek in
           do* (ret_w, muxed_panic, muxed_env, _) :=
-            (fix go (arms : list (pattern * expr)) (has_prev : Wt) (mret : list Wt) (mpanic : Pst)
-                 (menv : cenv) : M (list Wt * Pst * cenv * Wt) :=
-               match arms with
-               | [] => ret (mret, mpanic, menv, has_prev)
-               | (pat, body) :: r =>
-                   do* _ := m_replace P0 in
-                   do* (is_match, E1) := lower_pattern f P pat sw (env_push E0) in
-                   do* (rw, E2) := lower_expr f P body E1 in
-                   do* no_prev := m_not has_prev in
-                   do* s := m_and no_prev is_match in
-                   do* E3 := lift_res (env_pop E2) in
-                   do* Pcur := m_peek in
-                   do* mpanic' := m_mux_panic s Pcur mpanic in
-                   do* menv' := mux_envs s E3 menv in
-                   do* mret' := (if (length rw <? bits)%nat then crash
-                                 else map2_M (fun x0 x1 => m_mux s x0 x1) (firstn bits rw) mret) in
-                   do* has_prev' := m_or has_prev is_match in
-                   go r has_prev' mret' mpanic' menv'
-               end) arms wF (repeat wF bits) P0 E0 in
+            lower_arms bits sw E0 P0 arms wF (repeat wF bits) P0 E0 in
           do* _ := m_replace muxed_panic in
           ret (ret_w, muxed_env)
       | ENeg e1 =>
-          do* (x, E1) := lower_expr f P e1 E in
+          do* (x, E1) := rec_e e1 E in
           do* neg := o_negation OPS x in
           do* x0 := lift_res (hd_res x) in
           do* n0 := lift_res (hd_res neg) in
@@ -735,68 +892,57 @@ Fixpoint lower_expr (fuel : nat) (P : program) (e : expr) (E : cenv) {struct fue
           do* _ := m_panic_if ov Overflow m in
           ret (neg, E1)
       | ENot e1 =>
-          do* (x, E1) := lower_expr f P e1 E in
+          do* (x, E1) := rec_e e1 E in
           do* r := mapM_M m_not x in
           ret (r, E1)
       | EOp OLAnd x y =>
-          do* (xw, E1) := lower_expr f P x E in
-          do* x0 := (match xw with [w] => ret w | _ => crash end) in
+          do* (xw, E1) := rec_e x E in
+          do* x0 := one_wire xw in
           do* Pb := m_peek in
-          do* (yw, E2) := lower_expr f P y E1 in
-          do* y0 := (match yw with [w] => ret w | _ => crash end) in
+          do* (yw, E2) := rec_e y E1 in
+          do* y0 := one_wire yw in
           do* Pa := m_peek in
           do* Pm := m_mux_panic x0 Pa Pb in
           do* _ := m_replace Pm in
           do* r := m_and x0 y0 in
           ret ([r], E2)
       | EOp OLOr x y =>
-          do* (xw, E1) := lower_expr f P x E in
-          do* x0 := (match xw with [w] => ret w | _ => crash end) in
+          do* (xw, E1) := rec_e x E in
+          do* x0 := one_wire xw in
           do* Pb := m_peek in
-          do* (yw, E2) := lower_expr f P y E1 in
-          do* y0 := (match yw with [w] => ret w | _ => crash end) in
+          do* (yw, E2) := rec_e y E1 in
+          do* y0 := one_wire yw in
           do* Pa := m_peek in
           do* Pm := m_mux_panic x0 Pb Pa in
           do* _ := m_replace Pm in
           do* r := m_or x0 y0 in
           ret ([r], E2)
       | EOp ((OShl | OShr) as o) x y =>
-          do* (xw, E1) := lower_expr f P x E in
-          do* (yw, E2) := lower_expr f P y E1 in
+          do* (xw, E1) := rec_e x E in
+          do* (yw, E2) := rec_e y E1 in
           do* r := lower_shift (match o with OShl => true | _ => false end)
                                (is_signed (e_ty x)) xw yw m in
           ret (r, E2)
       | EOp o x y =>
           match (match o with OMul => mul_rewrite x y m t | _ => None end) with
-          | Some e' => lower_expr f P e' E
+          | Some e' => rec_e e' E
           | None =>
-              do* (xw, E1) := lower_expr f P x E in
-              do* (yw, E2) := lower_expr f P y E1 in
+              do* (xw, E1) := rec_e x E in
+              do* (yw, E2) := rec_e y E1 in
               do* r := lower_binop o t (e_ty x) (e_ty y) xw yw m in
               ret (r, E2)
           end
-      | EBlock stmts => lower_block f P stmts E
+      | EBlock stmts => rec_b stmts E
       | ECall fname args =>
           match find_fn P fname with
           | Some fd =>
-              do* (bindings, E1) :=
-                (fix go (ps : list (N * ty)) (args : list expr) (E : cenv)
-                   : M (list (N * list Wt) * cenv) :=
-                   match ps, args with
-                   | (pn, _) :: pr, a :: ar =>
-                       do* (w, Ea) := lower_expr f P a (env_push E) in
-                       do* Eb := lift_res (env_pop Ea) in
-                       do* (bs, Ec) := go pr ar Eb in
-                       ret ((pn, w) :: bs, Ec)
-                   | _, _ => ret ([], E)
-                   end) (fn_params fd) args E in
+              do* (bindings, E1) := lower_args (fn_params fd) args E in
               (* env.0.split_off(1): keep the outermost (global) scope only *)
               match rev E1 with
               | [] => crash
               | glob :: caller_rev =>
-                  do* Ecallee := lift_res (fold_left (fun Er b => let* E' := Er in env_let E' (fst b) (snd b))
-                                                      bindings (Ok (env_push [glob]))) in
-                  do* (body, E2) := lower_block f P (fn_body fd) Ecallee in
+                  do* Ecallee := lift_res (bind_all (env_push [glob]) bindings) in
+                  do* (body, E2) := rec_b (fn_body fd) Ecallee in
                   do* E3 := lift_res (env_pop E2) in
                   ret (body, rev caller_rev ++ E3)
               end
@@ -806,32 +952,20 @@ Fixpoint lower_expr (fuel : nat) (P : program) (e : expr) (E : cenv) {struct fue
           do* (eba, na) := lift_res (array_size P (e_ty a)) in
           do* (ebb, nb) := lift_res (array_size P (e_ty b)) in
           let jts := szn P join_ty in
-          do* (aw, E1) := lower_expr f P a E in
-          do* (bw, E2) := lower_expr f P b E1 in
+          do* (aw, E1) := rec_e a E in
+          do* (bw, E2) := rec_e b E1 in
           do* (bitonic, num_empty) := lift_res (bitonic_input aw bw eba na ebb nb jts) in
           do* sorted := o_merger OPS (S jts) true bitonic in
-          do* joined :=
-            (fix go (ws : list (list Wt)) : M (list (list Wt)) :=
-               match ws with
-               | w0 :: ((w1 :: _) as r) =>
-                   do* (je, binding) := window_binding w0 w1 eba ebb jts true has_assoc in
-                   do* bd := (match binding with
-                              | [] => ret []
-                              | h :: tlb => do* tl' := mapM_M (fun g => m_mux je g wF) tlb in ret (h :: tl')
-                              end) in
-                   do* rest := go r in
-                   ret (bd :: rest)
-               | _ => ret []
-               end) (skipn num_empty sorted) in
+          do* joined := join_func_windows eba ebb jts has_assoc (skipn num_empty sorted) in
           do* joined := o_sorter OPS 1 joined in
           ret (concat joined, E2)
       | EIf c tbranch fbranch =>
-          do* (cw, E0) := lower_expr f P c E in
+          do* (cw, E0) := rec_e c E in
           do* P0 := m_peek in
-          do* c0 := (match cw with [w] => ret w | _ => crash end) in
-          do* (tw, ET) := lower_expr f P tbranch E0 in
+          do* c0 := one_wire cw in
+          do* (tw, ET) := rec_e tbranch E0 in
           do* PT := m_replace P0 in
-          do* (fw, EF) := lower_expr f P fbranch E0 in
+          do* (fw, EF) := rec_e fbranch E0 in
           do* PF := m_replace P0 in
           do* E' := mux_envs c0 ET EF in
           do* Pm := m_mux_panic c0 PT PF in
@@ -839,7 +973,7 @@ Fixpoint lower_expr (fuel : nat) (P : program) (e : expr) (E : cenv) {struct fue
           do* r := mux_bits c0 tw fw in
           ret (r, E')
       | ECast to e1 =>
-          do* (w, E1) := lower_expr f P e1 E in
+          do* (w, E1) := rec_e e1 E in
           let size_after := szn P to in
           if (size_after =? length w)%nat then ret (w, E1)
           else if (size_after <? length w)%nat then ret (cast_truncate w size_after, E1)
@@ -849,136 +983,58 @@ Fixpoint lower_expr (fuel : nat) (P : program) (e : expr) (E : cenv) {struct fue
           ret (concat (map (fun k => unsigned_as_wires (lo + N.of_nat k) (N.to_nat bits))
                            (seq 0 (N.to_nat (hi - lo)))), E)
       end
-    end
-  end
+    end.
 
-with lower_block (fuel : nat) (P : program) (stmts : list stmt) (E : cenv) {struct fuel}
-  : M (list Wt * cenv) :=
-  match fuel with
-  | O => nofuel
-  | S f =>
-      do* (w, E1) :=
-        (fix go (ss : list stmt) (last : list Wt) (E : cenv) : M (list Wt * cenv) :=
-           match ss with
-           | [] => ret (last, E)
-           | s :: r => do* (w, E1) := lower_stmt f P s E in go r w E1
-           end) stmts [] (env_push E) in
-      do* E2 := lift_res (env_pop E1) in
-      ret (w, E2)
-  end
+  Fixpoint block_stmts (ss : list stmt) (last : list Wt) (E : cenv) : M (list Wt * cenv) :=
+    match ss with
+    | [] => ret (last, E)
+    | s :: r => do* (w, E1) := rec_s s E in block_stmts r w E1
+    end.
 
-with lower_stmt (fuel : nat) (P : program) (s : stmt) (E : cenv) {struct fuel}
-  : M (list Wt * cenv) :=
-  match fuel with
-  | O => nofuel
-  | S f =>
-    let lower_stmts := fix go (ss : list stmt) (E : cenv) : M cenv :=
-      match ss with
-      | [] => ret E
-      | s1 :: r => do* (_, E1) := lower_stmt f P s1 E in go r E1
-      end in
+  Definition lower_block_body (stmts : list stmt) (E : cenv) : M (list Wt * cenv) :=
+    do* (w, E1) := block_stmts stmts [] (env_push E) in
+    do* E2 := lift_res (env_pop E1) in
+    ret (w, E2).
+
+  Definition lower_stmt_body (s : stmt) (E : cenv) : M (list Wt * cenv) :=
     match s with
     | St si m =>
       match si with
       | SLet pat e =>
-          do* (w, E1) := lower_expr f P e E in
-          do* (_, E2) := lower_pattern f P pat w E1 in
+          do* (w, E1) := rec_e e E in
+          do* (_, E2) := rec_p pat w E1 in
           ret ([], E2)
-      | SExpr e => lower_expr f P e E
+      | SExpr e => rec_e e E
       | SLetMut x e =>
-          do* (w, E1) := lower_expr f P e E in
+          do* (w, E1) := rec_e e E in
           do* E2 := lift_res (env_let E1 x w) in
           ret ([], E2)
       | SAssign x accs e =>
-          do* (value, E1) := lower_expr f P e E in
+          do* (value, E1) := rec_e e E in
           do* coll := (match env_get E1 x with Some v => ret v | None => crash end) in
-          (* forward pass: read through the accessors, remembering what to write back *)
-          do* (accessed, E2) :=
-            (fix go (accs : list accessor) (coll : list Wt) (E : cenv)
-                 (acc : list (list Wt * nat * nat * option (list Wt)))
-               : M (list (list Wt * nat * nat * option (list Wt)) * cenv) :=
-               match accs with
-               | [] => ret (acc, E)
-               | AIdx arr_ty idx :: r =>
-                   do* (eb, num_elems) := lift_res (array_size P arr_ty) in
-                   do* (iw, E1) := lower_expr f P idx E in
-                   do* (coll', iw') := array_read coll iw eb num_elems m in
-                   go r coll' E1 ((coll, eb, O, Some iw') :: acc)
-               | ATup tup_ty i :: r =>
-                   do* (wb, wi) := lift_res (tuple_offsets P tup_ty i) in
-                   do* coll' := lift_res (slice coll wb wi) in
-                   go r coll' E ((coll, wb, wi, None) :: acc)
-               | AFld st_ty fld :: r =>
-                   do* (wb, wi) := lift_res (struct_offsets P st_ty fld) in
-                   do* coll' := lift_res (slice coll wb wi) in
-                   go r coll' E ((coll, wb, wi, None) :: acc)
-               end) accs coll E1 [] in
-          (* backward pass (accessed.into_iter().rev() = the accumulated list as is) *)
-          do* value' :=
-            (fix back (acc : list (list Wt * nat * nat * option (list Wt))) (value : list Wt)
-               : M (list Wt) :=
-               match acc with
-               | [] => ret value
-               | (before, a, n, Some iw) :: r =>
-                   do* v' := array_write before a iw value m in back r v'
-               | (before, a, n, None) :: r =>
-                   do* v' := lift_res (splice before a n value) in back r v'
-               end) accessed value in
+          do* (accessed, E2) := assign_forward m accs coll E1 [] in
+          do* value' := assign_backward m accessed value in
           do* E3 := lift_res (env_assign E2 x value') in
           ret ([], E3)
       | SFor pat arr body =>
           do* (eb, _) := lift_res (array_size P (e_ty arr)) in
-          do* (aw, E1) := lower_expr f P arr E in
-          do* E2 :=
-            (fix go (n : nat) (aw : list Wt) (E : cenv) : M cenv :=
-               match n with
-               | O => ret E
-               | S k =>
-                   match aw with
-                   | [] => ret E
-                   | _ =>
-                       do* binding := lift_res (slice aw 0 eb) in
-                       do* (_, Ea) := lower_pattern f P pat binding (env_push E) in
-                       do* Eb := lower_stmts body Ea in
-                       do* Ec := lift_res (env_pop Eb) in
-                       go k (skipn eb aw) Ec
-                   end
-               end) (if (eb =? 0)%nat then O else length aw) aw E1 in
+          do* (aw, E1) := rec_e arr E in
+          do* E2 := for_iterations pat body eb (if (eb =? 0)%nat then O else length aw) aw E1 in
           ret ([], E2)
       | SJoinLoop pat join_ty a b body =>
           do* (eba, na) := lift_res (array_size P (e_ty a)) in
           do* (ebb, nb) := lift_res (array_size P (e_ty b)) in
           let jts := szn P join_ty in
-          do* (aw, E1) := lower_expr f P a E in
-          do* (bw, E2) := lower_expr f P b E1 in
+          do* (aw, E1) := rec_e a E in
+          do* (bw, E2) := rec_e b E1 in
           do* (bitonic, num_empty) := lift_res (bitonic_input aw bw eba na ebb nb jts) in
           do* sorted := o_merger OPS (S jts) true bitonic in
-          do* E3 :=
-            (fix go (ws : list (list Wt)) (E : cenv) : M cenv :=
-               match ws with
-               | w0 :: ((w1 :: _) as r) =>
-                   do* (je, binding) := window_binding w0 w1 eba ebb jts false true in
-                   do* Pb := m_peek in
-                   do* (_, Ej) := lower_pattern f P pat binding (env_push E) in
-                   do* Ej := lower_stmts body Ej in
-                   do* Ej := lift_res (env_pop Ej) in
-                   do* Pj := m_replace Pb in
-                   do* E' := mux_envs je Ej E in
-                   do* Pm := m_mux_panic je Pj Pb in
-                   do* _ := m_replace Pm in
-                   go r E'
-               | _ => ret E
-               end) (skipn num_empty sorted) E2 in
+          do* E3 := join_loop_windows pat body eba ebb jts (skipn num_empty sorted) E2 in
           ret ([], E3)
       end
-    end
-  end
+    end.
 
-with lower_pattern (fuel : nat) (P : program) (p : pattern) (mw : list Wt) (E : cenv) {struct fuel}
-  : M (Wt * cenv) :=
-  match fuel with
-  | O => nofuel
-  | S f =>
+  Definition lower_pattern_body (p : pattern) (mw : list Wt) (E : cenv) : M (Wt * cenv) :=
     match p with
     | Pat pi _ t =>
       let range_match (lo hi : list Wt) : M (Wt * cenv) :=
@@ -995,78 +1051,92 @@ with lower_pattern (fuel : nat) (P : program) (p : pattern) (mw : list Wt) (E : 
         if (length mw <? bits)%nat then crash else
         do* acc := eq_acc wT (combine n (firstn bits mw)) in
         ret (acc, E) in
-      (* sub-patterns over consecutive slices of the matched wires *)
-      let fields_match := fix go (ps : list (pattern * nat)) (w : nat) (is_match : Wt) (E : cenv)
-          : M (Wt * cenv) :=
-        match ps with
-        | [] => ret (is_match, E)
-        | (fp, fbits) :: r =>
-            do* sub := lift_res (slice mw w fbits) in
-            do* (fm, E1) := lower_pattern f P fp sub E in
-            do* is_match' := m_and is_match fm in
-            go r (w + fbits)%nat is_match' E1
-        end in
       match pi with
       | PId x => do* E1 := lift_res (env_let E x mw) in ret (wT, E1)
-      | PTrue => match mw with [w] => ret (w, E) | _ => crash end
-      | PFalse => match mw with [w] => do* n := m_not w in ret (n, E) | _ => crash end
+      | PTrue => do* w := one_wire mw in ret (w, E)
+      | PFalse => do* w := one_wire mw in do* n := m_not w in ret (n, E)
       | PNumU n => eq_match (unsigned_as_wires n (szn P t))
       | PNumS z => eq_match (signed_as_wires z (szn P t))
       | PURange lo hi =>
           range_match (unsigned_as_wires lo (szn P t)) (unsigned_as_wires hi (szn P t))
       | PSRange lo hi =>
           range_match (signed_as_wires lo (szn P t)) (signed_as_wires hi (szn P t))
-      | PTup ps => fields_match (map (fun fp => (fp, szn P (p_ty fp))) ps) O wT E
+      | PTup ps => fields_match mw (map (fun fp => (fp, szn P (p_ty fp))) ps) O wT E
       | PStruct name _ fields =>
           match assocN name (p_structs P) with
-          | Some def =>
-              (fix go (ds : list (N * ty)) (w : nat) (is_match : Wt) (E : cenv) : M (Wt * cenv) :=
-                 match ds with
-                 | [] => ret (is_match, E)
-                 | (fname, fty) :: r =>
-                     let fbits := szn P fty in
-                     match assocN fname (rev fields) with
-                     | Some fp =>
-                         do* sub := lift_res (slice mw w fbits) in
-                         do* (fm, E1) := lower_pattern f P fp sub E in
-                         do* is_match' := m_and is_match fm in
-                         go r (w + fbits)%nat is_match' E1
-                     | None => go r (w + fbits)%nat is_match E
-                     end
-                 end) def O wT E
+          | Some def => struct_match mw fields def O wT E
           | None => crash
           end
-      | PEnumUnit ename variant | PEnumTup ename variant _ =>
+      | PEnumUnit ename variant =>
           match assocN ename (p_enums P) with
           | Some variants =>
               let tag_size := enum_tag_size variants in
               do* tag_actual := lift_res (slice mw 0 tag_size) in
-              let tag_expected := unsigned_as_wires variant tag_size in
-              do* is_match := eq_acc wT (combine tag_expected tag_actual) in
-              match pi with
-              | PEnumTup _ _ ps =>
-                  match nthN variants variant with
-                  | Some field_types =>
-                      (fix go (ps : list pattern) (fts : list ty) (w : nat) (is_match : Wt) (E : cenv)
-                         : M (Wt * cenv) :=
-                         match ps, fts with
-                         | fp :: pr, ft :: fr =>
-                             let fbits := szn P ft in
-                             do* sub := lift_res (slice mw w fbits) in
-                             do* (fm, E1) := lower_pattern f P fp sub E in
-                             do* is_match' := m_and is_match fm in
-                             go pr fr (w + fbits)%nat is_match' E1
-                         | _, _ => ret (is_match, E)
-                         end) ps field_types tag_size is_match E
-                  | None => crash
-                  end
-              | _ => ret (is_match, E)
+              do* is_match := eq_acc wT (combine (unsigned_as_wires variant tag_size) tag_actual) in
+              ret (is_match, E)
+          | None => crash
+          end
+      | PEnumTup ename variant ps =>
+          match assocN ename (p_enums P) with
+          | Some variants =>
+              let tag_size := enum_tag_size variants in
+              do* tag_actual := lift_res (slice mw 0 tag_size) in
+              do* is_match := eq_acc wT (combine (unsigned_as_wires variant tag_size) tag_actual) in
+              match nthN variants variant with
+              | Some field_types => fields_match mw (zip_sizes ps field_types) tag_size is_match E
+              | None => crash
               end
           | None => crash
           end
       end
-    end
+    end.
+End Rec.
+
+Fixpoint lower_expr (fuel : nat) (P : program) (e : expr) (E : cenv) {struct fuel}
+  : M (list Wt * cenv) :=
+  match fuel with
+  | O => nofuel
+  | S f => lower_expr_body P (lower_expr f P) (lower_pattern f P) (lower_block f P) e E
+  end
+with lower_block (fuel : nat) (P : program) (stmts : list stmt) (E : cenv) {struct fuel}
+  : M (list Wt * cenv) :=
+  match fuel with
+  | O => nofuel
+  | S f => lower_block_body (lower_stmt f P) stmts E
+  end
+with lower_stmt (fuel : nat) (P : program) (s : stmt) (E : cenv) {struct fuel}
+  : M (list Wt * cenv) :=
+  match fuel with
+  | O => nofuel
+  | S f => lower_stmt_body P (lower_expr f P) (lower_pattern f P) (lower_stmt f P) s E
+  end
+with lower_pattern (fuel : nat) (P : program) (p : pattern) (mw : list Wt) (E : cenv) {struct fuel}
+  : M (Wt * cenv) :=
+  match fuel with
+  | O => nofuel
+  | S f => lower_pattern_body P (lower_pattern f P) p mw E
   end.
+
+(* the wires of a constant whose definition is a literal (the literal's own suffix type gives
+   the width, as in compile_with_constants) *)
+Definition const_wires (e : expr) : res (list Wt) :=
+  match e with
+  | Ex ETrue _ _ => Ok [wT]
+  | Ex EFalse _ _ => Ok [wF]
+  | Ex (ENumU n lb) _ _ => Ok (unsigned_as_wires n (N.to_nat lb))
+  | Ex (ENumS z lb) _ _ => Ok (signed_as_wires z (N.to_nat lb))
+  | _ => Crash
+  end.
+
+(* the global scope: constants bound in source order *)
+Definition global_scope (P : program) : res cenv :=
+  fold_left (fun Er '(x, e) => let* E := Er in let* w := const_wires e in env_let E x w)
+            (p_consts P) (Ok [[]]).
+
+(* the environment in which the body of main is compiled: parameters in a scope of their own *)
+Definition main_env (P : program) (bindings : list (N * list Wt)) : res cenv :=
+  let* glob := global_scope P in
+  fold_left (fun Er b => let* E := Er in env_let E (fst b) (snd b)) bindings (Ok (env_push glob)).
 
 End Generic.
 
@@ -1121,15 +1191,6 @@ Inductive lowered :=
 | LNoMain                 (* CompilerError::FnNotFound *)
 | LZeroSizedInputs.       (* CompilerError::ZeroSizedInputs *)
 
-Definition const_wires (P : program) (e : expr) : res (list W) :=
-  match e with
-  | Ex ETrue _ _ => Ok [1]
-  | Ex EFalse _ _ => Ok [0]
-  | Ex (ENumU n lb) _ _ => Ok (unsigned_as_wires bops n (N.to_nat lb))
-  | Ex (ENumS z lb) _ _ => Ok (signed_as_wires bops z (N.to_nat lb))
-  | _ => Crash
-  end.
-
 Definition wire_range (from : N) (n : nat) : list W := map (fun k => from + N.of_nat k) (seq 0 n).
 
 (* parameter wiring: a single array parameter becomes one party per element *)
@@ -1156,10 +1217,7 @@ Definition lower_program (dedup : bool) (P : program) : res lowered :=
   | Some fd =>
       let '(input_gates, bindings) := param_wiring P (fn_params fd) in
       if sumN input_gates =? 0 then Ok LZeroSizedInputs else
-      let* glob := fold_left (fun Er '(x, e) => let* E := Er in let* w := const_wires P e in env_let E x w)
-                             (p_consts P) (Ok [[]]) in
-      let* E0 := fold_left (fun Er b => let* E := Er in env_let E (fst b) (snd b))
-                           bindings (Ok (env_push glob)) in
+      let* E0 := main_env bops P bindings in
       let s0 := mkCst (new_builder dedup input_gates) pstate_new in
       let* ((outs, _), s1) := lower_block bops lower_fuel P (fn_body fd) E0 s0 in
       let* c := build (cb s1) (prec_wires (ps_rec (cp s1))) outs in
